@@ -492,7 +492,7 @@ func (te *tableEngine) PlayerReady(playerID string) error {
 
 	gs, err := te.game.Ready(gamePlayerIdx)
 	if err == nil {
-		te.table.State.LastPlayerGameAction = te.createPlayerGameAction(playerID, playerIdx, "ready", 0, gs.GetPlayer(gamePlayerIdx))
+		te.table.State.LastPlayerGameAction = te.createPlayerGameAction(playerID, playerIdx, "ready", 0, gs, gs.GetPlayer(gamePlayerIdx))
 	}
 
 	return err
@@ -514,7 +514,7 @@ func (te *tableEngine) PlayerPay(playerID string, chips int64) error {
 
 	gs, err := te.game.Pay(gamePlayerIdx, chips)
 	if err == nil {
-		te.table.State.LastPlayerGameAction = te.createPlayerGameAction(playerID, playerIdx, "pay", chips, gs.GetPlayer(gamePlayerIdx))
+		te.table.State.LastPlayerGameAction = te.createPlayerGameAction(playerID, playerIdx, "pay", chips, gs, gs.GetPlayer(gamePlayerIdx))
 	}
 
 	return err
@@ -536,7 +536,7 @@ func (te *tableEngine) PlayerBet(playerID string, chips int64) error {
 
 	gs, err := te.game.Bet(gamePlayerIdx, chips)
 	if err == nil {
-		te.table.State.LastPlayerGameAction = te.createPlayerGameAction(playerID, playerIdx, WagerAction_Bet, chips, gs.GetPlayer(gamePlayerIdx))
+		te.table.State.LastPlayerGameAction = te.createPlayerGameAction(playerID, playerIdx, WagerAction_Bet, chips, gs, gs.GetPlayer(gamePlayerIdx))
 		te.emitGamePlayerActionEvent(*te.table.State.LastPlayerGameAction)
 
 		playerState := te.table.State.PlayerStates[playerIdx]
@@ -574,7 +574,7 @@ func (te *tableEngine) PlayerRaise(playerID string, chipLevel int64) error {
 	gs, err := te.game.Raise(gamePlayerIdx, chipLevel)
 	if err == nil {
 		playerState := te.table.State.PlayerStates[playerIdx]
-		te.table.State.LastPlayerGameAction = te.createPlayerGameAction(playerID, playerIdx, WagerAction_Raise, chipLevel, gs.GetPlayer(gamePlayerIdx))
+		te.table.State.LastPlayerGameAction = te.createPlayerGameAction(playerID, playerIdx, WagerAction_Raise, chipLevel, gs, gs.GetPlayer(gamePlayerIdx))
 		te.emitGamePlayerActionEvent(*te.table.State.LastPlayerGameAction)
 
 		playerState.GameStatistics.ActionTimes++
@@ -627,7 +627,7 @@ func (te *tableEngine) PlayerCall(playerID string) error {
 
 	gs, err := te.game.Call(gamePlayerIdx)
 	if err == nil {
-		te.table.State.LastPlayerGameAction = te.createPlayerGameAction(playerID, playerIdx, WagerAction_Call, wager, gs.GetPlayer(gamePlayerIdx))
+		te.table.State.LastPlayerGameAction = te.createPlayerGameAction(playerID, playerIdx, WagerAction_Call, wager, gs, gs.GetPlayer(gamePlayerIdx))
 		te.emitGamePlayerActionEvent(*te.table.State.LastPlayerGameAction)
 
 		playerState := te.table.State.PlayerStates[playerIdx]
@@ -663,7 +663,7 @@ func (te *tableEngine) PlayerAllin(playerID string) error {
 
 	gs, err := te.game.Allin(gamePlayerIdx)
 	if err == nil {
-		te.table.State.LastPlayerGameAction = te.createPlayerGameAction(playerID, playerIdx, WagerAction_AllIn, wager, gs.GetPlayer(gamePlayerIdx))
+		te.table.State.LastPlayerGameAction = te.createPlayerGameAction(playerID, playerIdx, WagerAction_AllIn, wager, gs, gs.GetPlayer(gamePlayerIdx))
 		te.emitGamePlayerActionEvent(*te.table.State.LastPlayerGameAction)
 
 		playerState := te.table.State.PlayerStates[playerIdx]
@@ -713,7 +713,7 @@ func (te *tableEngine) PlayerCheck(playerID string) error {
 
 	gs, err := te.game.Check(gamePlayerIdx)
 	if err == nil {
-		te.table.State.LastPlayerGameAction = te.createPlayerGameAction(playerID, playerIdx, WagerAction_Check, 0, gs.GetPlayer(gamePlayerIdx))
+		te.table.State.LastPlayerGameAction = te.createPlayerGameAction(playerID, playerIdx, WagerAction_Check, 0, gs, gs.GetPlayer(gamePlayerIdx))
 		te.emitGamePlayerActionEvent(*te.table.State.LastPlayerGameAction)
 
 		playerState := te.table.State.PlayerStates[playerIdx]
@@ -743,7 +743,7 @@ func (te *tableEngine) PlayerFold(playerID string) error {
 
 	gs, err := te.game.Fold(gamePlayerIdx)
 	if err == nil {
-		te.table.State.LastPlayerGameAction = te.createPlayerGameAction(playerID, playerIdx, WagerAction_Fold, 0, gs.GetPlayer(gamePlayerIdx))
+		te.table.State.LastPlayerGameAction = te.createPlayerGameAction(playerID, playerIdx, WagerAction_Fold, 0, gs, gs.GetPlayer(gamePlayerIdx))
 		te.emitGamePlayerActionEvent(*te.table.State.LastPlayerGameAction)
 
 		playerState := te.table.State.PlayerStates[playerIdx]
@@ -779,7 +779,7 @@ func (te *tableEngine) PlayerPass(playerID string) error {
 
 	gs, err := te.game.Pass(gamePlayerIdx)
 	if err == nil {
-		te.table.State.LastPlayerGameAction = te.createPlayerGameAction(playerID, playerIdx, "pass", 0, gs.GetPlayer(gamePlayerIdx))
+		te.table.State.LastPlayerGameAction = te.createPlayerGameAction(playerID, playerIdx, "pass", 0, gs, gs.GetPlayer(gamePlayerIdx))
 		te.emitGamePlayerActionEvent(*te.table.State.LastPlayerGameAction)
 	}
 
